@@ -82,6 +82,12 @@ Inductive kind :=
 | KDrainSnapshot (t : nat) (inflight : list (nat * bool))   (* request, hijacked *)
 | KDrainDeadline (t : nat)
 | KDrainCancelRest (t : nat)
+(* command <-> drain linkage (exact: the WaitGroup of a DrainAll call identifies the call) *)
+| KSvcDrain (svc : nat) (lbs : list nat)          (* Service.Drain entered (pause / stop): the balancers it is about to drain *)
+| KSvcDrainDone (svc : nat)                       (* ... both DrainAll calls have returned *)
+| KDrainAll (lb w : nat)                          (* LoadBalancer.DrainAll call w entered *)
+| KDrainChild (t w : nat)                         (* the goroutine call w spawned for target t is about to run Drain(t) *)
+| KDrainAllDone (lb w : nat)                      (* wg.Wait() of call w has returned *)
 (* state snapshot *)
 | KSnapCollect (svcs : list nat)
 | KSnapCreate
@@ -94,9 +100,18 @@ Inductive kind :=
 | KParked | KReleased
 | KOther.
 
+(** the linkage events (dropped from the traces offered to the views that predate them) *)
+Definition is_link (k : kind) : bool :=
+  match k with
+  | KSvcDrain _ _ | KSvcDrainDone _ | KDrainAll _ _ | KDrainChild _ _ | KDrainAllDone _ _ => true
+  | _ => false
+  end.
+
 Record event := mkEv { e_t : N; e_by : actor; e_k : kind }.
 
 Definition trace := list event.
+
+Definition unlinked (tr : trace) : trace := filter (fun e => negb (is_link (e_k e))) tr.
 
 (** Generic helpers for association lists keyed by nat (the "heaps"). *)
 Fixpoint nget {A} (l : list (nat * A)) (k : nat) : option A :=
